@@ -56,6 +56,36 @@ theorem send_needs_quorum (fuel : Nat) {s : State} (hs : Inv s) (ops : List Op) 
   have t := h.inv.txs _ (mem_of_alookup hl)
   exact ⟨tx, hl, h1, h2, h3, h4, h5, t.nodup, t.sub⟩
 
+/-- At most once, part 1: the id of every inner send is pending and not yet recorded as executed
+    at that moment, and was not executed before the history started (the ghost list `executed`
+    collects the ids whose send was issued and not rolled back; it only grows). -/
+theorem at_most_once (fuel : Nat) {s : State} (hs : Inv s) (ops : List Op) :
+    (∀ ev ∈ (run fuel s ops).2, ev.id ∉ ev.pre.executed ∧ ev.id ∉ s.executed) ∧
+    (run fuel s ops).1.executed.Nodup ∧
+    (∀ i ∈ s.executed, i ∈ (run fuel s ops).1.executed) ∧
+    (∀ p ∈ (run fuel s ops).1.pending, p.1 ∉ (run fuel s ops).1.executed) := by
+  have hr := run_ok fuel ops hs
+  have hm := run_mono fuel ops s
+  refine ⟨?_, hr.1.exNodup, hm.1, fun p hp => (hr.1.txs p hp).notExec⟩
+  intro ev he
+  have h := hr.2 ev he
+  obtain ⟨tx, hl, _⟩ := h.stored
+  have hne := (h.inv.txs _ (mem_of_alookup hl)).notExec
+  exact ⟨hne, fun hi => hne (hm.2 ev he _ hi)⟩
+
+/-- At most once, part 2: when a (committed) message reports that transaction `ret.txId` was
+    applied, that id is recorded as executed — so by part 1 no inner send of any later history,
+    at any call depth, is for that id again. -/
+theorem applied_never_again (fuel : Nat) {s : State} (hs : Inv s) (op : Op) (rest : List Op)
+    {s' : State} {ret : Ret} (h : (exec fuel op.epoch s op.act).out = .ok (s', ret))
+    (ha : ret.applied = true) :
+    ret.txId ∈ s'.executed ∧ ∀ ev ∈ (run fuel s' rest).2, ev.id ≠ ret.txId := by
+  have hrec := exec_rec op.epoch fuel s op.act s' ret h ha
+  have hs' : Inv s' := (exec_ok op.epoch fuel s op.act hs).1 s' ret h
+  refine ⟨hrec, ?_⟩
+  intro ev he heq
+  exact ((at_most_once fuel hs' rest).1 ev he).2 (heq ▸ hrec)
+
 /-- An inner send never exceeds the balance, and when it carries value it leaves at least the
     amount still locked at that epoch. -/
 theorem lock_respected (fuel : Nat) {s : State} (hs : Inv s) (ops : List Op) :
